@@ -288,6 +288,7 @@ def solve(o, timeout_ms=6000, dump_dir=None, want_model=True, eng=None, expect_f
     nonspec = [f for f in extra if not _is_spec_axiom(f)]
     o.reason = ""
     o.model = None
+    ground_sat = False
     # --- 1. ground
     ground = axioms.ground_unfold(eng, list(o.facts) + [o.goal], depth=3) if eng is not None else []
     s = z3.Solver()
@@ -304,15 +305,16 @@ def solve(o, timeout_ms=6000, dump_dir=None, want_model=True, eng=None, expect_f
         return o
     if r == z3.sat:
         o.reason = "ground: sat"
+        ground_sat = True
         if want_model:
             o.model = s.model()
             o.model_kind = "ground"
     else:
         o.reason = f"ground: unknown ({s.reason_unknown()})"
     # --- 2. quantified
-    if not (expect_fail and o.model is not None):
+    if not (expect_fail and (o.model is not None or ground_sat)):
         s = z3.Solver()
-        s.set("timeout", min(timeout_ms, 2500) if expect_fail else timeout_ms)
+        s.set("timeout", min(timeout_ms, 2500) if (expect_fail or o.model is not None) else timeout_ms)
         for f in o.facts:
             s.add(f)
         for f in extra:
